@@ -38,7 +38,7 @@ func isStderrWriter(v ssa.Value) bool {
 func diagnosticSink(cc *ssa.CallCommon, k string, callersOf func(*ssa.Function) []ssa.CallInstruction) bool {
 	// the writer is stderr itself, or a parameter that every caller binds to stderr
 	toStderr := func(v ssa.Value) bool {
-		if isStderrWriter(v) {
+		if isStderrWriter(v) || stderrSeam(v) {
 			return true
 		}
 		p, ok := peel(v).(*ssa.Parameter)
@@ -200,7 +200,12 @@ func diagnosticOnly(c *Ctx, seed ssa.Value, universe []*ssa.Function) (bool, str
 					}
 				}
 			case *ssa.If:
-				bad("decides a branch at %s", c.InstrPos(use))
+				// a branch that only decides WHETHER a diagnostic is printed: everything that can
+				// run after it, up to the end of the function, is printing to stderr, formatting
+				// and plain returns - then both ways round leave the program in the same state
+				if w := onlyDiagnosticsAfter(c, x, callersOf); w != "" {
+					bad("decides a branch at %s after which %s", c.InstrPos(use), w)
+				}
 			case *ssa.Return:
 				fn := x.Parent()
 				cs := callersOf(fn)
@@ -282,4 +287,127 @@ func diagnosticOnlySourceCall(c *Ctx, i ssa.Instruction, universe []*ssa.Functio
 		return false, "statistics written through a pointer the analysis does not own"
 	}
 	return diagnosticOnly(c, call, universe)
+}
+
+// onlyDiagnosticsAfter: "" when every instruction reachable from the branch within its function
+// is harmless (loads, address computations, conversions, stores into locals, formatting,
+// diagnostics on stderr, result-less returns); otherwise what else can run.
+func onlyDiagnosticsAfter(c *Ctx, ifi *ssa.If, callersOf func(*ssa.Function) []ssa.CallInstruction) string {
+	seen := map[*ssa.BasicBlock]bool{}
+	var work []*ssa.BasicBlock
+	for _, s := range ifi.Block().Succs {
+		work = append(work, s)
+	}
+	localRoot := func(a ssa.Value) bool {
+		for d := 0; d < 8; d++ {
+			switch x := a.(type) {
+			case *ssa.Alloc:
+				return true
+			case *ssa.FieldAddr:
+				a = x.X
+			case *ssa.IndexAddr:
+				a = x.X
+			default:
+				return false
+			}
+		}
+		return false
+	}
+	for len(work) > 0 {
+		b := work[len(work)-1]
+		work = work[:len(work)-1]
+		if seen[b] {
+			continue
+		}
+		seen[b] = true
+		if len(seen) > 64 {
+			return "too much code follows to read"
+		}
+		for _, in := range b.Instrs {
+			switch x := in.(type) {
+			case *ssa.DebugRef, *ssa.Jump, *ssa.If, *ssa.Phi, *ssa.UnOp, *ssa.BinOp, *ssa.FieldAddr, *ssa.IndexAddr, *ssa.Field, *ssa.Index,
+				*ssa.MakeInterface, *ssa.ChangeInterface, *ssa.ChangeType, *ssa.Convert, *ssa.Slice, *ssa.Alloc, *ssa.Extract, *ssa.TypeAssert, *ssa.RunDefers:
+			case *ssa.Return:
+				if len(x.Results) > 0 {
+					return "a value is returned (" + c.InstrPos(in) + ")"
+				}
+			case *ssa.Store:
+				if !localRoot(x.Addr) {
+					return "something other than a local is written (" + c.InstrPos(in) + ")"
+				}
+			case ssa.CallInstruction:
+				cc := x.Common()
+				k := calleeKey(cc)
+				if diagnosticSink(cc, k, callersOf) {
+					continue
+				}
+				through := false
+				for _, p := range diagThroughPrefixes {
+					if strings.HasPrefix(k, p) {
+						through = true
+					}
+				}
+				if !through {
+					return shortKey(k) + " is called (" + c.InstrPos(in) + ")"
+				}
+			default:
+				return fmt.Sprintf("%T runs (%s)", in, c.InstrPos(in))
+			}
+		}
+		work = append(work, b.Succs...)
+	}
+	return ""
+}
+
+// stderrSeam: v is a load of a package-level variable (`var statsSink io.Writer = os.Stderr`, a
+// seam for tests) whose only store anywhere in the package is its initialisation with os.Stderr.
+func stderrSeam(v ssa.Value) bool {
+	v = peel(v)
+	if mi, ok := v.(*ssa.MakeInterface); ok {
+		v = peel(mi.X)
+	}
+	ld, ok := v.(*ssa.UnOp)
+	if !ok || ld.Op != token.MUL {
+		return false
+	}
+	g, ok := ld.X.(*ssa.Global)
+	if !ok || g.Pkg == nil {
+		return false
+	}
+	stores, okInit := 0, false
+	for _, m := range g.Pkg.Members {
+		fn, ok := m.(*ssa.Function)
+		if !ok {
+			continue
+		}
+		var visit func(f *ssa.Function)
+		visit = func(f *ssa.Function) {
+			allInstrs(f, func(i ssa.Instruction) {
+				switch x := i.(type) {
+				case *ssa.Store:
+					if x.Addr == ssa.Value(g) {
+						stores++
+						if f.Name() == "init" && isStderrWriter(x.Val) {
+							okInit = true
+						}
+					}
+				default:
+					// the address handed to something: could be written there
+					if _, isLoad := i.(*ssa.UnOp); isLoad {
+						return
+					}
+					for _, op := range i.Operands(nil) {
+						if *op == ssa.Value(g) {
+							stores += 2
+						}
+					}
+				}
+			})
+			for _, a := range f.AnonFuncs {
+				visit(a)
+			}
+		}
+		visit(fn)
+	}
+	return stores == 1 && okInit
 }
